@@ -28,6 +28,8 @@ def cases(draw):
     path = draw(sc.device_path(900))
     while len(path.encode()) > 1000:
         path = path[:len(path) // 2]
+    if draw(st.sampled_from([False] * 5 + [True])):
+        path = "/" + "q" * (draw(st.integers(1008, 1024)) - 1)          # the longest paths of the property's range: 1008..1024 bytes
     mode = draw(st.one_of(st.sampled_from([0o100770, 0o100644, 0, 0o177777, 33272]), st.integers(0, 2 ** 32 - 1)))
     spec_len = len(("%s,%d" % (path, mode)).encode("utf8"))
     size = st.one_of(st.sampled_from(sizes), st.sampled_from(exact_fill_sizes(m, spec_len)), st.sampled_from(sizes), st.integers(0, 300), st.integers(0, 200000), big)
